@@ -2092,6 +2092,8 @@ class VM:
             count = to_integer(arg(args, 0))
             if count < 0 or count == float("inf"):
                 raise JSRangeError("Invalid count value")
+            if not s:
+                return ""
             if len(s) * count > MAX_STRING_LENGTH:
                 raise JSRangeError("Invalid string length")
             if self.memory_limit and len(s) * count > self.memory_limit:
